@@ -199,6 +199,24 @@ def check_cartesian_volume(ctx):
         for n in fv.cfg.nodes:
             if n.stmt is not None and cons and any(x is cons[0] for x in ast.walk(n.stmt)):
                 at = n.stmt
+    # the cell volume is the product of *every* axis' own spacing: an expression that picks the spacing of one fixed axis
+    # (grid.discretization[0] ** n) is right only for isotropic grids
+    one_axis = None
+    for s_ in fv.statements():
+        if isinstance(s_, (ast.Assign, ast.AugAssign)) and s_.value is not None:
+            tg_ = s_.targets[0] if isinstance(s_, ast.Assign) else s_.target
+            if isinstance(tg_, ast.Name) and ("volume" in tg_.id):
+                ex_ = fv.expand(s_.value, s_, allow_mutated=True, stop=("grid", "mask", "labels"))
+                for n_ in ast.walk(ex_):
+                    if isinstance(n_, ast.Subscript) and U(n_.value) in ("grid.discretization", "mask.grid.discretization") and isinstance(n_.slice, ast.Constant) \
+                            and not any(isinstance(c_, ast.Call) and U(c_.func).split(".")[-1] in ("prod", "product", "reduce") and any(z is n_ for z in ast.walk(c_)) for c_ in ast.walk(ex_)):
+                        pw_ = [b_ for b_ in ast.walk(ex_) if isinstance(b_, ast.BinOp) and isinstance(b_.op, ast.Pow) and any(z is n_ for z in ast.walk(b_.left))]
+                        if pw_ and one_axis is None:
+                            one_axis = (s_, U(pw_[0]))
+    if one_axis is not None:
+        ctx.violate("DIM", site, (fi, one_axis[0]), f"`{one_axis[1][:70]}` takes the spacing of one axis to the power of the number of axes as the cell volume: on grids with "
+                    "different spacings per axis the located volumes (and thereby radii) are wrong; the cell volume is the product of every axis' own spacing")
+        return
     known, bad = 0, None
     if at is not None:
         for d, u in ev.name_units_per_def("volumes", at):
